@@ -29,7 +29,12 @@ def run(tier="quick", seed=0, contracts=None):
         from scinumtools.units.settings import UNIT_STANDARD, UNIT_TYPES
         for k in list(UNIT_STANDARD._keys):
             if k not in g0[1]:
-                del UNIT_STANDARD[k]
+                try:
+                    del UNIT_STANDARD[k]
+                except Exception:   # a key without a row behind it: the table itself was left inconsistent
+                    if k in UNIT_STANDARD._keys:
+                        UNIT_STANDARD._keys.remove(k)
+                    UNIT_STANDARD._data.pop(k, None)
         UNIT_TYPES[:] = g0[4]
 
     class MyType(UnitType):
